@@ -27,6 +27,7 @@
 import Curtsies.Model.KeysGen
 import Curtsies.Proofs.Keys
 import Curtsies.Proofs.KeysLoop
+import Curtsies.Proofs.KeysGenCore
 namespace Curtsies
 open Spec.Utf8
 
@@ -34,15 +35,15 @@ open Spec.Utf8
 
 set_option maxRecDepth 100000 in
 theorem genTables_wf : genTables.WF where
-  prefix_closed := by decide +kernel
-  prefix_sound := by decide +kernel
+  prefix_closed := genTables_core.prefix_closed
+  prefix_sound := genTables_core.prefix_sound
   multibyte_ascii := by decide +kernel
   bytes := by decide +kernel
-  max_size := by decide +kernel
+  max_size := genTables_core.max_size
   max_attained := by decide +kernel
   fits_utf8 := by decide +kernel
-  subset := by decide +kernel
-  curtsies_lookup := by decide +kernel
+  subset := genTables_core.subset
+  curtsies_lookup := genTables_core.curtsies_lookup
   esc_is_key := by decide +kernel
 
 /-! ### (1) lossless -/
